@@ -244,7 +244,13 @@ func Mul(a, b *Term) *Term {
 			return a
 		}
 	}
-	t := mk("*", SInt, a, b)
+	op := "*"
+	if _, ok := b.ConstInt(); !ok {
+		// non-linear product: rendered through `nlmul`, which the exact solvers define as
+		// multiplication and the abstraction solver leaves uninterpreted
+		op = "nlmul"
+	}
+	t := mk(op, SInt, a, b)
 	if a.lo != nil && a.hi != nil && b.lo != nil && b.hi != nil {
 		p1 := new(big.Int).Mul(a.lo, b.lo)
 		p2 := new(big.Int).Mul(a.lo, b.hi)
@@ -665,7 +671,54 @@ type Renderer struct {
 	defs     map[*Term]string
 	ndef     int
 	memo     map[*Term]string
+	sawNL    bool
+	nls      []nlRec
 }
+
+type nlRec struct{ m, x, y string }
+
+// nlLemmas asserts instances of valid facts about multiplication for the product m = x*y
+// (sign rules, units, growth, and monotonicity against earlier products sharing a factor).
+// They are tautologies for the exact solvers and make the uninterpreted abstraction useful.
+func (r *Renderer) nlLemmas(m, x, y string) {
+	a := func(f string, args ...interface{}) { r.emit("(assert " + fmt.Sprintf(f, args...) + ")") }
+	a("(=> (and (>= %s 0) (>= %s 0)) (>= %s 0))", x, y, m)
+	a("(=> (and (<= %s 0) (<= %s 0)) (>= %s 0))", x, y, m)
+	a("(=> (and (>= %s 0) (<= %s 0)) (<= %s 0))", x, y, m)
+	a("(=> (and (<= %s 0) (>= %s 0)) (<= %s 0))", x, y, m)
+	a("(=> (= %s 0) (= %s 0))", x, m)
+	a("(=> (= %s 0) (= %s 0))", y, m)
+	a("(=> (= %s 1) (= %s %s))", x, m, y)
+	a("(=> (= %s 1) (= %s %s))", y, m, x)
+	a("(=> (and (>= %s 1) (>= %s 1)) (and (>= %s %s) (>= %s %s)))", x, y, m, x, m, y)
+	a("(=> (and (> %s 0) (> %s 0)) (> %s 0))", x, y, m)
+	for _, o := range r.nls {
+		pairs := [][4]string{}
+		if o.y == y {
+			pairs = append(pairs, [4]string{o.x, x, y, o.m})
+		}
+		if o.x == x {
+			pairs = append(pairs, [4]string{o.y, y, x, o.m})
+		}
+		if o.x == y {
+			pairs = append(pairs, [4]string{o.y, x, y, o.m})
+		}
+		if o.y == x {
+			pairs = append(pairs, [4]string{o.x, y, x, o.m})
+		}
+		for _, p := range pairs {
+			// o.m = p0 * c ; m = p1 * c
+			a("(=> (and (>= %s 0) (<= %s %s)) (<= %s %s))", p[2], p[0], p[1], p[3], m)
+			a("(=> (and (>= %s 0) (>= %s %s)) (>= %s %s))", p[2], p[0], p[1], p[3], m)
+			a("(=> (= %s %s) (= %s %s))", p[0], p[1], p[3], m)
+			a("(=> (and (> %s 0) (< %s %s)) (< %s %s))", p[2], p[0], p[1], p[3], m)
+		}
+	}
+	r.nls = append(r.nls, nlRec{m, x, y})
+}
+
+var _ = 0
+
 
 func NewRenderer(emit func(string)) *Renderer {
 	return &Renderer{emit: emit, declared: map[string]bool{}, defs: map[*Term]string{}, memo: map[*Term]string{}}
@@ -717,6 +770,9 @@ func (r *Renderer) Render(t *Term) string {
 		if op == "app" {
 			op = t.name
 		}
+		if op == "nlmul" {
+			r.sawNL = true
+		}
 		parts = append(parts, op)
 		for _, a := range t.args {
 			parts = append(parts, r.Render(a))
@@ -728,11 +784,14 @@ func (r *Renderer) Render(t *Term) string {
 		} else {
 			s = "(" + strings.Join(parts, " ") + ")"
 		}
-		if t.size > defThreshold {
+		if t.size > defThreshold || op == "nlmul" {
 			r.ndef++
 			name := fmt.Sprintf("d!%d", r.ndef)
 			r.emit(fmt.Sprintf("(define-fun %s () %s %s)", name, t.sort, s))
 			r.defs[t] = name
+			if op == "nlmul" {
+				r.nlLemmas(name, parts[1], parts[2])
+			}
 			return name
 		}
 	}
